@@ -1,6 +1,8 @@
 package c12
 
 import (
+	"math"
+
 	"github.com/zclconf/go-cty/cty"
 
 	"verif/harness/core"
@@ -45,6 +47,17 @@ func corpus() []corpusEntry {
 		{"setproduct", args(lst(sV("a"), sV("b")), lst(sV("a"), sV("c"))), args(lenBetween(ls, 2, 2), lenBetween(ls, 1, 2))},
 		{"setproduct", args(lst(sV("a"), sV("b")), lst(sV("x"), sV("y"), sV("z"))), args(lenBetween(ls, 2, 3), lenBetween(ls, 3, 4))},
 		{"setproduct", args(set(sV("a"), sV("b")), lst(sV("x"))), args(lenBetween(cty.Set(cty.String), 1, 2), lst(sV("x")))},
+		// setproduct multiplies the upper length bounds of its arguments: the 1024 / 2048 cut-offs, and bounds
+		// whose product with the lengths before them passes 2^64 (4 x 2^62; 3 x ceil(2^64/3); 2 x 2 x 2^62)
+		{"setproduct", args(lst(sV("a"), sV("b"), sV("c"), sV("d")), lst(sV("x"))), args(lst(sV("a"), sV("b"), sV("c"), sV("d")), lenAtMost(ls, 1<<62))},
+		{"setproduct", args(lst(sV("a"), sV("b"), sV("c"), sV("d")), lst(sV("x"), sV("y"))), args(lst(sV("a"), sV("b"), sV("c"), sV("d")), lenAtMost(ls, 1<<62+1))},
+		{"setproduct", args(lst(sV("a"), sV("b"), sV("c")), lst(sV("x"))), args(lst(sV("a"), sV("b"), sV("c")), lenAtMost(ls, 6148914691236517206))},
+		{"setproduct", args(lst(sV("a"), sV("b")), lst(nI(1), nI(2)), lst(sV("x"))), args(lst(sV("a"), sV("b")), lenBetween(cty.List(cty.Number), 1, 2), lenAtMost(ls, 1<<62))},
+		{"setproduct", args(lst(sV("x")), lst(sV("a"), sV("b"), sV("c"), sV("d"))), args(lenAtMost(ls, 1<<62), lst(sV("a"), sV("b"), sV("c"), sV("d")))},
+		{"setproduct", args(lst(sV("a"), sV("b")), lst(sV("x"), sV("y"), sV("z"))), args(lst(sV("a"), sV("b")), lenAtMost(ls, 1024))},
+		{"setproduct", args(lst(sV("a"), sV("b"), sV("c")), lst(sV("x"), sV("y"), sV("z"))), args(lst(sV("a"), sV("b"), sV("c")), lenAtMost(ls, 1025))},
+		{"setproduct", args(lst(sV("a"), sV("b")), lst(sV("x"))), args(lst(sV("a"), sV("b")), lenAtMost(ls, math.MaxInt))},
+		{"setproduct", args(set(sV("a"), sV("b"), sV("c"), sV("d")), set(sV("x"))), args(set(sV("a"), sV("b"), sV("c"), sV("d")), lenAtMost(cty.Set(cty.String), 1<<62))},
 		// F-39: the order of a set that still holds unknown members is not final
 		{"reverselist", args(set(sV("b"), sV("x,y"))), args(set(sV("x,y"), unkStr))},
 		{"reverselist", args(set(nI(1), nI(2), nI(3))), args(set(nI(2), unkNum, nI(3)))},
@@ -150,7 +163,13 @@ func runCorpus(c *core.Ctx, base int64) {
 			c.Count("corpus-entries:concrete-call-failed")
 			continue
 		}
-		pair(c, idx, fd, e.conc, cres, e.abs, "corpus")
+		if pair(c, idx, fd, e.conc, cres, e.abs, "corpus") {
+			// the same pair through ONE reused argument slice, in both orders (history.go)
+			cs := hstep{kind: "concrete", args: e.conc, ref: cres}
+			ws := hstep{kind: "weakened", args: e.abs, base: e.conc, ref: cres}
+			runHistory(c, idx, fd, []hstep{ws, cs, ws}, "corpus:weakened-then-concrete")
+			runHistory(c, idx, fd, []hstep{cs, ws, cs}, "corpus:concrete-then-weakened")
+		}
 	}
 }
 
